@@ -157,6 +157,8 @@ def write_evidence(mod, pid, tier, seed, info, tot, outcomes, nontrivial, counte
         'coverage': coverage, 'assumptions': list(getattr(mod, 'ASSUMPTIONS', [])), 'wall_s': round(wall, 2),
         'violations': int(n_viol),
     }
+    if os.environ.get('VERIF_NO_EVIDENCE') == '1' or os.environ.get('VERIF_NUMQI_PATH'):
+        return ev  # runs against a mutated tree / scratch copy never overwrite the evidence of the real tree
     os.makedirs(os.path.join(VERIF_DIR, 'evidence'), exist_ok=True)
     path = os.path.join(VERIF_DIR, 'evidence', pid + '.json')
     tmp = path + '.tmp'
